@@ -346,8 +346,8 @@ func (engC12) Gen(r *Rng, s *Script, idx int, tier string) {
 				a = r.Intn(40)
 			}
 			d := r.Pick([]int{1, 2})
-			if d == 1 && r.Chance(1, 10) {
-				d = 3 + r.Intn(6)
+			if d == 1 && r.Chance(1, 8) {
+				d = 3 + r.Intn(8)
 			}
 			s.Steps = append(s.Steps, Step{Op: "setProp", A: a, C: r.Intn(nkeys), D: d})
 		case 2:
